@@ -52,12 +52,16 @@ async def async_map_unordered(
     start_times = {f: t for f in pending}
     end_times = {}
     backups: dict[asyncio.Future, asyncio.Future] = {}
+    superseded: set[asyncio.Future] = set()
 
     while pending:
         finished, pending = await asyncio.wait(
             pending, return_when=asyncio.FIRST_COMPLETED, timeout=2
         )
         for task in finished:
+            if task in superseded:
+                # twin of a task whose result has already been yielded
+                continue
             # TODO: use exception groups in Python 3.11 to handle case of multiple task exceptions
             if task.exception():
                 # if the task has a backup that is not done, or is done with no exception, then don't raise this exception
@@ -85,6 +89,7 @@ async def async_map_unordered(
                     del backups[task]
                     del backups[backup]
                     backup.cancel()
+                    superseded.add(backup)
 
         if use_backups:
             now = time.monotonic()
